@@ -220,8 +220,49 @@ pub fn bases(tier: &Tier) -> Vec<Base> {
         let k = key(1).public.to_base58();
         let text = format!("100000\t{}\tNormal\n30000\t{}\tVipOutput\n5\t{}\tNormal\n", k, k, k);
         v.push(Base { dec: "issuance-file", f: d_issuance, label: "issuance".into(), bytes: text.into_bytes(), fields: vec![] });
+        // text-level shapes of a row: key column decoding to 0..64 bytes (valid base58 and not),
+        // amounts on both sides of the small-holder threshold (below it the key column is ignored),
+        // missing / surplus columns, unknown slip type
+        let mut rows: Vec<String> = vec![];
+        for klen in [0usize, 1, 20, 32, 33, 34, 64] {
+            let kb: Vec<u8> = (0..klen).map(|i| (i as u8).wrapping_mul(7).wrapping_add(3)).collect();
+            for amount in ["5", "24999", "25000", "100000", "18446744073709551615", "18446744073709551616", "-1", "x"] {
+                rows.push(format!("{}\t{}\tNormal", amount, b58(&kb)));
+            }
+        }
+        rows.push(format!("100000\t{}", k));
+        rows.push(format!("100000\t{}\tNormal\textra", k));
+        rows.push(format!("100000\t{}\tSomethingElse", k));
+        rows.push("100000\tnot-base58-0OIl\tNormal".to_string());
+        rows.push("\t\t".to_string());
+        for (i, row) in rows.iter().enumerate() {
+            let text = format!("100000\t{}\tNormal\n{}\n30000\t{}\tNormal\n", k, row, k);
+            v.push(Base { dec: "issuance-file", f: d_issuance, label: format!("issuance-row{}", i), bytes: text.into_bytes(), fields: vec![] });
+        }
     }
     v
+}
+
+/// base58 (bitcoin alphabet) of an arbitrary byte string
+fn b58(bytes: &[u8]) -> String {
+    const ALPHABET: &[u8] = b"123456789ABCDEFGHJKLMNPQRSTUVWXYZabcdefghijkmnopqrstuvwxyz";
+    let mut digits: Vec<u8> = vec![];
+    for &b in bytes {
+        let mut carry = b as u32;
+        for d in digits.iter_mut() {
+            carry += (*d as u32) << 8;
+            *d = (carry % 58) as u8;
+            carry /= 58;
+        }
+        while carry > 0 {
+            digits.push((carry % 58) as u8);
+            carry /= 58;
+        }
+    }
+    let zeros = bytes.iter().take_while(|&&b| b == 0).count();
+    let mut out: Vec<u8> = vec![b'1'; zeros];
+    out.extend(digits.iter().rev().map(|&d| ALPHABET[d as usize]));
+    String::from_utf8(out).unwrap()
 }
 
 fn boundary_values(width: usize, actual: u64) -> Vec<Vec<u8>> {
